@@ -23,13 +23,30 @@ def crdt_jobs(tier):
     return js
 
 
+from props import C02 as _c02
+
+
+def conv_jobs(tier):
+    """O4: bounded end-to-end convergence — after every delivery the replica state equals the reference function
+    of the SET of merged commits, so any two replicas that merged the same commits are equal."""
+    n = 3 if tier == "quick" else 4
+    js = []
+    for kind, kn in ((0, "register"), (1, "counter")):
+        for d in (-1, n - 1, 1):
+            js.append({"id": f"O4.converge.{kn}.n{n}.del{d}", "func": "VerifH_C02_Deliver",
+                       "conf": {"n": n, "kind": kind, "del": d, "deliveries": 3, "hasfield": 1, "class": 2, "dag": "", "orders": "all"},
+                       "_obligation": "O4", "_covers": ["delivered"], "unwind": 40, "reset_mode": True})
+    return js
+
+
 PROPERTY = {
     "id": "C01",
     "suites": [
+        dict(_c02.SUITE, name="converge", jobs=conv_jobs),
         {"name": "crdt", "pkg": "internal/core/crdt", "files": ["zz_verif_crdt.go"], "common": ["intrinsics", "kvmodel"],
          "jobs": crdt_jobs, "overrides": OVR, "unwind": 14},
     ],
-    "bounds": {"payload": "1..2 bytes (quick: 1), arbitrary incl. the CBOR null 0xf6", "priorities": "1..299", "writes": "<=3 per register", "counter increments": "full int64"},
+    "bounds": {"O4 commits": "3 (quick) / 4 (thorough), <=2 parents, 3 deliveries incl. redelivery, all hash orders", "payload": "1..2 bytes (quick: 1), arbitrary incl. the CBOR null 0xf6", "priorities": "1..299", "writes": "<=3 per register", "counter increments": "full int64"},
     "assumptions": ["kvmodel follows the documented corekv contract", "fxamacker/cbor round-trips numbers (modelled as fixed-width CBOR)",
                     "client.CborNil = {0xf6} (override, compared with the real value in the native run)"],
     "outside_claim": ["more than one field per commit", "secondary-index maintenance after merge", "network layer, merge queue and retry loop (concurrency)"],
